@@ -98,7 +98,7 @@ func runC20(c *ev.Ctx) {
 		"give a valid file (walker+Decode); (c) random subsets of documented sentinels vs explicit defaults: byte-identical; (d) nil opts == DefaultOptions(); " +
 		"(e) lossy-only options must not change lossless bytes; (f) EmulateJpegSize changes nothing; (g) OptionsForPreset(PresetDefault,q)==defaults; (h) boundary image dimensions; " +
 		"(i) extreme ints in every int field: error or valid file, never a panic. distinct = (kind, mutated field/value or sentinel subset, codec, alpha)"
-	n := c.N(2500, 60000)
+	n := c.N(10000, 1500000)
 	kinds := []string{"illegal", "legal", "sentinel", "sentinel", "nil", "lossyonly", "jpeg", "preset", "dims", "extreme", "illegal", "sentinel"}
 	var cases []ev.Case
 	for i := 0; i < n; i++ {
